@@ -33,8 +33,8 @@ def gen_measure_data(rng, pts, normalized=None):
     for n in pts:
         p = [round(rng.uniform(-5, 9), rng.choice([0, 1, 3])) for _ in range(n)]
         w = [rng.choice([0.0, 0.1, 0.25, 0.5, 1.0, 2.0]) for _ in range(n)]
-        if not any(w): w[rng.randrange(n)] = 1.0
-        if normalized:
+        if not any(w) and rng.random() < 0.7: w[rng.randrange(n)] = 1.0      # an all-zero factor is a legitimate (massless) measure
+        if normalized and any(w):
             s = sum(w); w = [v / s for v in w]
         pos.append(p); wts.append(w)
     return pos, wts
@@ -134,6 +134,12 @@ def run_structure(rng, obs):
     f = lambda x: sum(ai * xi for ai, xi in zip(a, x)) + b * x[0] ** 2
     fy = [f(p) for p in P]
     tw = math.fsum(W)
+    if tw == 0:          # massless product measure: expectations are undefined; structure and pof/support still are
+        pf0 = float(c.pof(lambda x: f(x) - sorted(fy)[len(fy) // 2]))
+        ck(pf0 == 0.0 and list(c.support()) == [] and list(c.support_index()) == [], 'a massless product measure has no support and zero probability of failure',
+           observed=[pf0, len(c.support())])
+        obs.nontrivial = nontrivial_shape(pts, wts); obs.notes = {'npts': len(P), 'massless': True}
+        return
     ex = math.fsum(wi * yi for wi, yi in zip(W, fy)) / tw
     ck(R.close(float(c.expect(f)), ex, 1e-9, 1e-12), 'expect is the weighted sum of f over the product points', observed=float(c.expect(f)), expected=ex)
     ev = math.fsum(wi * (yi - ex) ** 2 for wi, yi in zip(W, fy)) / tw
@@ -162,6 +168,8 @@ def run_setters(rng, obs):
     obs.desc = {'pts': pts, 'pos': pos, 'wts': wts}
     ck = lambda ok, what, **kw: obs.check(ok, 'setter:' + what, pts=pts, **kw)
     k = rng.randrange(len(pts))
+    if not any(wts[k]) or any(not any(w) for w in wts):
+        obs.skip('massless factor: centre of mass undefined'); return
     m = c[k]
     sup = [x for x, w in zip(pos[k], wts[k]) if w > 0]
     t = rng.choice([0.0, 2.5, -4.0])
